@@ -162,24 +162,29 @@ impl Sym {
     }
 }
 
+/// The two keys of the map alphabet: their order as numbers (2 < 10, the documented key order)
+/// differs from the order of their Recon texts ("10" < "2"), so an implementation that designates
+/// the entries of a take / drop by the wrong order is visible with just two entries.
+pub const KEYS: [i32; 2] = [2, 10];
+
 /// The alphabet, smallest first.
 pub fn alphabet(kind: Kind, local: bool) -> Vec<Sym> {
     let mut v = vec![Sym::Linked, Sym::Synced, Sym::Unlinked];
     match kind {
         Kind::Map => {
-            for k in [1, 2] {
+            for k in KEYS {
                 for x in [1, 2] {
                     v.push(Sym::Upd(k, x));
                 }
             }
-            v.extend([Sym::Rem(1), Sym::Rem(2), Sym::Clear, Sym::Take(0), Sym::Take(1), Sym::Drop(0), Sym::Drop(1)]);
+            v.extend([Sym::Rem(KEYS[0]), Sym::Rem(KEYS[1]), Sym::Clear, Sym::Take(0), Sym::Take(1), Sym::Drop(0), Sym::Drop(1)]);
             if local {
-                for k in [1, 2] {
+                for k in KEYS {
                     for x in [1, 2] {
                         v.push(Sym::LUpd(k, x));
                     }
                 }
-                v.extend([Sym::LRem(1), Sym::LRem(2), Sym::LClear]);
+                v.extend([Sym::LRem(KEYS[0]), Sym::LRem(KEYS[1]), Sym::LClear]);
             }
         }
         Kind::Value => {
